@@ -236,7 +236,7 @@ class B:
                 place_tokens(o, acc_base, acc_edges)
 
         refs = {}  # local -> local it is a &mut/& borrow of (single assignment heuristics)
-        for blk in self.blocks:
+        for bi, blk in enumerate(self.blocks):
             if blk['c']:
                 continue
             for s in blk['s']:
@@ -281,6 +281,9 @@ class B:
                         ab.add('callres:' + f['res'])
                     if 'selfty' in f:
                         ab.add('callty:%s@%s' % (f['fn'], f['selfty']))
+                        if f['fn'].endswith(('PartialEq::eq', 'PartialEq::ne')):
+                            # comparison call sites are distinguishable (to count independent checks feeding one guard)
+                            ab.add('csite:%s@%s#%d' % (f['fn'], f['selfty'], bi))
                 else:
                     op_tokens(f['ind'], ab, ae)
                 arg_locals = []
